@@ -668,9 +668,8 @@ func (c *compiler) compile(tok *token) []instruction {
 		if slices.Contains([]string{"byte", "uint8", "int8", "int", "int32", "rune", "uint32", "uint", "int64", "uint64", "int16", "uint16", "float64", "string", "[]"}, tok.Tokens[callName].Symbol) {
 			typ := convMap[tok.Tokens[callName].Symbol]
 			if name := tok.Tokens[callName]; name.Symbol == "[]" && len(name.Tokens) > 0 {
-				if typeFromToken(c, name.Tokens[0]) == TypeInt32 { // []rune(s) decodes runes, every other []T(s) gives bytes
-					typ = sliceType(TypeInt32)
-				}
+				// []rune(s) decodes runes, every other []T(s) gives bytes; []T(nil) is the nil slice of that type
+				typ = sliceType(typeFromToken(c, name.Tokens[0]))
 			}
 			res = append(res, instruction{Code: codeConvert, A: reg(typ)})
 		} else if code := builtinMap[tok.Tokens[callName].Text]; code != 0 {
